@@ -82,6 +82,16 @@ func (r ReferenceStorage) IterReferences() (storer.ReferenceIter, error) {
 		return nil, err
 	}
 
+	// Base references that were overwritten or deleted in the transaction
+	// are not part of its view.
+	baseIter = storer.NewReferenceFilteredIter(func(ref *plumbing.Reference) bool {
+		if _, deleted := r.deleted[ref.Name()]; deleted {
+			return false
+		}
+		_, err := r.temporal.Reference(ref.Name())
+		return err == plumbing.ErrReferenceNotFound
+	}, baseIter)
+
 	return storer.NewMultiReferenceIter([]storer.ReferenceIter{
 		baseIter,
 		temporalIter,
